@@ -8,10 +8,10 @@ import ast
 from sa import dataflow as df
 from sa import loop as lp
 from sa.homog import solver_scale_obligations
-from sa.krylov import axis_value, closure, nospace, reductions
+from sa.krylov import axis_value, closure, is_norm_value, nospace, reductions
 
 
-def polynomial(e, routine):
+def polynomial(e, routine, idx_=None):
     """expression over tol, norm(<initial residual>) and numbers -> {monomial: coefficient}; None outside the fragment.
     monomial = sorted tuple of (atom, power)"""
     def mul(p, q):
@@ -30,7 +30,7 @@ def polynomial(e, routine):
             return {(): float(x.value)}
         if isinstance(x, ast.Name) and x.id == "tol":
             return {(("tol", 1), ): 1.0}
-        if isinstance(x, ast.Call) and df.is_xnp_call(x) == "norm" and x.args:
+        if isinstance(x, ast.Call) and ((df.is_xnp_call(x) == "norm" and x.args) or (idx_ is not None and is_norm_value(idx_, routine, x))):
             return {(("N", 1), ): 1.0}
         if isinstance(x, ast.BinOp) and isinstance(x.op, (ast.Add, ast.Sub)):
             l, r = go(x.left), go(x.right)
@@ -110,8 +110,14 @@ def run(idx, rep, tier):
             is_any = ast.unparse(c.func).endswith(".any")
             arg = c.args[0] if c.args else None
             gt = isinstance(arg, ast.Compare) and isinstance(arg.ops[0], (ast.Gt, ast.GtE))
-            lhs_norm = isinstance(arg, ast.Compare) and ".norm(" in ast.unparse(arg.left)
-            ok = is_any and gt and lhs_norm
+            lhs_norm = isinstance(arg, ast.Compare) and is_norm_value(idx, test_fn, arg.left)
+            # refuted on positive evidence only (wrong quantifier / direction); an unrecognised left-hand side is undecided
+            unknown_call = isinstance(arg, ast.Compare) and any(
+                isinstance(c_, ast.Call) and df.is_xnp_call(c_) is None and not (isinstance(c_.func, ast.Attribute) and c_.func.attr in ("abs", "sqrt", "real", "sum", "max", "mean"))
+                and idx.resolve_expr(test_fn.module, c_.func, test_fn) is None for c_ in ast.walk(df.resolve_value(test_fn.node, arg.left)))
+            # an expression built from known operations that contains no norm of the state is a different quantity (refuted);
+            # only a call that cannot be resolved leaves the question open
+            ok = (is_any and gt and lhs_norm) if (lhs_norm or not (is_any and gt) or not unknown_call) else None
             rep.decide(ok, "stopping-test", "cg:cond", f"continues while `{ast.unparse(c)}`" + ("" if ok else ": the loop must continue while ANY column's residual norm exceeds the tolerance "
                        "(stop only when every column is below)"), detail="" if ok else "quantifier", locs=[idx.loc(test_fn.module, test_fn.node)])
             # residual norm per column
@@ -128,9 +134,9 @@ def run(idx, rep, tier):
     ok = None
     why = "no re-definition of tol found"
     for v in tol_defs:
-        if "norm(" in nospace(v) and "tol" in df.names_in(v):
+        if "tol" in df.names_in(v) and any(isinstance(c_, ast.Call) and is_norm_value(idx, routine, c_) for c_ in ast.walk(v)):
             # the threshold as a polynomial in (tol, N = ||r0||) must be tol*N + tol, however it is written
-            poly = polynomial(v, routine)
+            poly = polynomial(v, routine, idx)
             want = {(("N", 1), ("tol", 1)): 1.0, (("tol", 1), ): 1.0}
             ok = None if poly is None else poly == want
             why = f"tol' = `{ast.unparse(v)}`" + ("" if ok else (": required tol * ||r0|| + tol" if ok is False else ": outside the polynomial fragment"))
@@ -164,7 +170,7 @@ def run(idx, rep, tier):
     rep.floor("loop-cap", 1)
     rep.floor("stopping-test", 2)
     rep.floor("scale-homogeneity", 3)
-    rep.floor("column-independence", 4)
+    rep.floor("column-independence", 2)
     rep.floor("iteration-count", 1)
     rep.explanation = ("LOOP + DEP: cap conjunct k < max_iters with k from 0 by +1 per body; the loop continues while any column's residual norm exceeds tol' = tol*||r0|| + tol; the "
                        "right-hand side is divided by its column norms and solution / residual are multiplied back by the same array; every reduction on the CG state is over the "
